@@ -1,5 +1,6 @@
 import WhatIs.Model.Rpm
 import WhatIs.Lemmas.Rpm
+import WhatIs.Lemmas.PgpSig
 /-
   Props/C19.lean — PROPERTY THEOREMS for C19 (RPM package identity, digests and signature issuer are reported
   as stored).  `p` ranges over ALL decoded packages: any entries, any types, any counts.
@@ -52,5 +53,15 @@ example : stringByTag [⟨1000, .ints⟩, ⟨1000, .strs [sb "x"]⟩] 1000 = [] 
 theorem sig_header_always_read (p : Rpm.Pkg) : Rpm.sigHeaderRecognised p = true := by
   have h : Gen.rpmSigHeaderNeedsRegionTag = false := by decide
   simp [Rpm.sigHeaderRecognised, Rpm.sigHeaderRecognisedB, h]
+
+/-- LEGACY (VERSION 3) SIGNATURE PACKETS, FROM THE BYTES: the RFC 4880 §5.2.2 packet for ANY type, creation time, 64-bit
+    issuer key id and RSA / DSA algorithm is read by the model of `SignatureV3.parse` (Model/PgpSig.lean, validated
+    against the copied reader by the `pgpsig3` operation) to exactly those values — the issuer that `sig_readback`
+    then prints with all sixteen digits is the one stored in the package -/
+theorem sig_v3_from_bytes (t c i pa ha g0 g1 : Nat) (mp : Bytes) (ms : List Pgp.MPI)
+    (hpa : pa = 1 ∨ pa = 3 ∨ pa = 17) (hha : PgpSig.hashKnown ha = true) (hc : c < 4294967296) (hi : i < 18446744073709551616)
+    (hm : PgpSig.readMPIs (PgpSig.mpiCount pa) mp = .ok ms) :
+    PgpSig.parseV3 (Spec.Sig4.bodyV3 t c i pa ha g0 g1 mp) = .ok ⟨t, c, i, pa, ha, [g0, g1], ms⟩ :=
+  Lemmas.PgpSig.parseV3_body t c i pa ha g0 g1 mp ms hpa hha hc hi hm
 
 end WhatIs.C19
